@@ -979,6 +979,15 @@ impl<'a, S: Storage> BTree<'a, S> {
             mid = all_keys.len() - 1;
         }
 
+        let left_size: usize = cell_sizes[..mid].iter().sum();
+        let right_size: usize = cell_sizes[mid..].iter().sum();
+        ensure!(
+            left_size <= page_capacity && right_size <= page_capacity,
+            "entry too large: no split point fits both halves ({} / {} bytes)",
+            left_size,
+            right_size
+        );
+
         {
             let page_data = self.storage.page_mut(page_no)?;
             let mut leaf = LeafNodeMut::init(page_data)?;
